@@ -437,10 +437,10 @@ def rstrip (p : Char → Bool) : List Char → List Char
     | [] => if p c then [] else [c]
     | r' => c :: r'
 
-/-- the sanitiser of a non-identifier replacement (pydoctor commit 50c0cec):
-`' '.join(r.replace('\0', ' ').split())`, then `.replace('`', "'")`, then `.rstrip('\\')`, and `''` if
-nothing is left. `stripBlank = false` is the code as it is; `true` is `.rstrip('\\ ')` (the proposed
-follow-up, see `sanitise_guard`). -/
+/-- the sanitiser of a non-identifier replacement:
+`' '.join(r.replace('\0', ' ').split())`, then `.replace('`', "'")`, then `.rstrip('\\ ')`, and `''` if
+nothing is left. `stripBlank = true` is the code as it is (pydoctor commit 782581b); `false` is
+`.rstrip('\\')`, the code between 50c0cec and 782581b, kept for `sanitise_guard_counterexample`. -/
 def sanitise (stripBlank : Bool) (r : List Char) : List Char :=
   let a := collapse (r.map nulToSpace)
   let b := a.map (fun c => if c = '`' then '\'' else c)
@@ -450,7 +450,7 @@ def sanitise (stripBlank : Bool) (r : List Char) : List Char :=
 /-- the replacement as it is put into the template: identifiers as they are, anything else
 sanitised and with one more pair of backticks -/
 def wrapReplacement (T : IdTables) (r : List Char) : List Char :=
-  if validateIdentifier T r then r else '`' :: sanitise false r ++ ['`']
+  if validateIdentifier T r then r else '`' :: sanitise true r ++ ['`']
 
 inductive DeprErr where
   | valueError   -- "Invalid package name"
